@@ -412,9 +412,9 @@ def g_tz(rng, want: Optional[bool]):
     if not aware:
         return None
     c = rng.randrange(6)
-    if c == 0:
+    if c <= 1:
         return timezone.utc
-    if c == 1:
+    if c == 2:
         return timezone(timedelta(minutes=rng.choice([-1439, 1439, -1, 1, 60, -60, 330, -570])))
     return timezone(timedelta(minutes=rng.randrange(-1439, 1440)))
 
@@ -638,7 +638,9 @@ def gen_recipe(rng, name: str, thorough: bool) -> Dict[str, Any]:
         if c < 4:
             ops.append(["rt", tok_val(g_value(rng, cls, False, None) if rng.random() < 0.7 else v)])
         elif c < 6:
-            sp = rng.choice(spellings(rng, v))
+            sps = spellings(rng, v)
+            zs = [x for x in sps if x[0].startswith("zulu")]
+            sp = rng.choice(zs) if zs and rng.random() < 0.5 else rng.choice(sps)
             ops.append(["spell", sp[0], tok_val(v), sp[1]])
         elif c < 9:
             s = wire_py(v)
@@ -715,7 +717,7 @@ CORPUS = corpus()
 
 
 def generate(ctx: Ctx) -> List[Case]:
-    per_type = 220 if ctx.thorough else 34
+    per_type = 1500 if ctx.thorough else 60
     cases: List[Case] = []
     i = 0
     for rec in CORPUS:
